@@ -173,6 +173,20 @@ trie2 buckets (`nodes`, contract trie, class trie) hold the tries of the same st
 def upgrade (legacy : St) (native : StM) : StM :=
   { native with recs := migrateRecs legacy.recs [] }
 
+/-- The same migrator reading the two per-field buckets as they are (`ContractClassHash`, `ContractNonce` as
+association lists, newest binding first; this is what the TRANSCRIBED legacy state of `ModelLegacyState.lean`
+holds): one record per address of the class-hash bucket; a missing nonce entry reads as zero (`ingestAddress`:
+`db.ErrKeyNotFound` → `felt.Zero`). -/
+def migrateFieldsGo (cls nonce : AList HTerm) : AList HTerm → AList RecM → AList RecM
+  | [], recs => recs
+  | (addr, c) :: rest, recs =>
+    let acc := migrateFieldsGo cls nonce rest recs
+    if (alookup acc addr).isSome then acc
+    else (addr, writeContract ((alookup cls addr).getD c) ((alookup nonce addr).getD (.felt 0))) :: acc
+
+def upgradeF (cls nonce : AList HTerm) (native : StM) : StM :=
+  { native with recs := migrateFieldsGo cls nonce cls [] }
+
 /-- the records as the driver prints them: live bindings only, one per address -/
 def liveRecs (recs : AList RecM) : AList RecM :=
   recs.foldr (fun (e : Path × RecM) acc => if (alookup acc e.1).isSome then acc else e :: acc) []
